@@ -5,7 +5,7 @@
    the correspondence run only; its panics on ill-formed octets are a recorded finding (partial). *)
 From Coq Require Import List NArith Bool Arith.
 Import ListNotations.
-Require Import V.Regex V.Abnf V.Parse V.BridgePaths V.C02Bridge V.Cmp V.PctWf V.C19Proofs.
+Require Import V.Regex V.Abnf V.Parse V.ParseProofs V.Factor V.BridgePaths V.C02Bridge V.C02Proofs V.Cmp V.PctWf V.C19Proofs.
 Local Open Scope nat_scope.
 
 Theorem C19_octets_total_partial : forall s,
@@ -37,6 +37,30 @@ Theorem C19_step_escape : forall a b x y s f, hexval a = Some x -> hexval b = So
   dec_fuel (S f) (PCT :: a :: b :: s) = option_map (cons (x * 16 + y)%N) (dec_fuel f s).
 Proof. intros a b x y s f Ha Hb. simpl. rewrite Ha, Hb. reflexivity. Qed.
 Print Assumptions C19_step_escape.
+
+(* THROUGH THE ACCESSORS: for EVERY URI / IRI reference, the query and the fragment that the accessors hand out (the
+   slices of the text at the ranges the decomposition returns, C02) have a total octet view -- the chain
+   grammar -> decomposition -> component language -> decoder, with no hypothesis on the reference *)
+Theorem C19_reference_query_fragment_URI : forall s, L (IRI_reference U U) s ->
+  (forall q, oslice s (r_query (reference_parts s 0)) = Some q -> exists q', dec q = Some q') /\
+  (forall f, oslice s (r_fragment (reference_parts s 0)) = Some f -> exists f', dec f = Some f').
+Proof.
+  intros s H. destruct (uri_reference_decomposition s H) as (p & (_ & _ & _ & Hq & Hf) & -> & E & _). rewrite E.
+  destruct (expected_slices p) as (_ & _ & _ & Sq & Sf). rewrite Sq, Sf. split.
+  - intros q Eq. rewrite Eq in Hq. exact (dec_total_component _ _ chk_q_U Hq).
+  - intros f Ef. rewrite Ef in Hf. exact (dec_total_component _ _ chk_f_U Hf).
+Qed.
+Print Assumptions C19_reference_query_fragment_URI.
+Theorem C19_reference_query_fragment_IRI : forall s, L (IRI_reference I C02Bridge.P) s ->
+  (forall q, oslice s (r_query (reference_parts s 0)) = Some q -> exists q', dec q = Some q') /\
+  (forall f, oslice s (r_fragment (reference_parts s 0)) = Some f -> exists f', dec f = Some f').
+Proof.
+  intros s H. destruct (iri_reference_decomposition s H) as (p & (_ & _ & _ & Hq & Hf) & -> & E & _). rewrite E.
+  destruct (expected_slices p) as (_ & _ & _ & Sq & Sf). rewrite Sq, Sf. split.
+  - intros q Eq. rewrite Eq in Hq. exact (dec_total_component _ _ chk_q_I Hq).
+  - intros f Ef. rewrite Ef in Hf. exact (dec_total_component _ _ chk_f_I Hf).
+Qed.
+Print Assumptions C19_reference_query_fragment_IRI.
 
 Example C19_example : dec [97;37;70;70;37;99;51;37;65;57]%N = Some [97;255;195;169]%N.   (* a%FF%c3%A9 *)
 Proof. vm_compute. reflexivity. Qed.
